@@ -20,6 +20,16 @@
 (*                          against a stuck server (the run never ends);       *)
 (*                          genS: single cuts on event boundaries, every       *)
 (*                          sequence of answers over the whole status class.   *)
+(*                          genB / genBA / genB5: the two budgets crossed      *)
+(*                          (CONSTRAINT Budgets1, Budgets2, BudgetsAll): a     *)
+(*                          first cut after progress, then per ATTEMPT refused *)
+(*                          / transient status / 200 with no event / 200 with  *)
+(*                          a `retry:` event only (bare, named, with the id    *)
+(*                          resumed from) / 200 with the rest; every sequence  *)
+(*                          for MaxRetries 1-2 (genBA), the grid 0..MaxRetries *)
+(*                          + 1 fruitless resumptions x 1..MaxRetries failed   *)
+(*                          attempts at every position for MaxRetries 2, 3     *)
+(*                          (genB) and the default 5 (genB5).                  *)
 EXTENDS StreamCli, Json
 
 Viol == {nm \in {"ExactlyOnceInOrder", "NoTruncatedSurfaced", "ResumeCursor", "RealResponseWithinBudget", "CleanFailure",
@@ -68,6 +78,38 @@ Runs ==
            => bodies[i].knd = bodies[j].knd
   /\ NFailed <= 1
 
+\* State constraints of the generation configurations "genB" / "genB5" (the two budgets crossed: attempts per reconnection
+\* x resumptions in a row without progress).  The first body is cut on an event boundary after at least one id has come
+\* across (the stream is resumable); from then on the environment chooses PER ATTEMPT: refused ("terr"), a transient
+\* status, or 200 - and what the 200 body is: nothing at all, a `retry:` event and nothing else (bare / named / with the id
+\* the client resumed from), or the whole rest of the stream.  (Partial progress between fruitless stretches: genI.)
+\* BudgetsAll (genBA, MaxRetries 1 and 2): EVERY sequence over this alphabet until the client completes or gives up: each
+\* counter runs through budget - 1, budget, budget + 1 against every value of the other, failures in every reconnection,
+\* kinds mixed.  Budgets1 / Budgets2 (genB: MaxRetries 2 and 3; genB5: the default, 5): the grid: k = 0 .. MaxRetries + 1 fruitless
+\* bodies of one kind in a row, then the rest; j = 1 .. MaxRetries failed attempts of one kind in at most nf of the k + 1
+\* reconnections, at every position - every k below, at and above the no-progress budget meets every j below and at the
+\* attempt budget in one behaviour.  One termination kind per script (mixed kinds: gen2, gen3).
+Failed(o) == {j \in 1..Len(o) : o[j] # "ok"}
+NFailRecons == Cardinality({i \in 1..Len(recon) : Failed(recon[i].outs) # {}}) + (IF pc = "recon" /\ Failed(outs) # {} THEN 1 ELSE 0)
+FailKinds == (UNION {{recon[i].outs[j] : j \in 1..Len(recon[i].outs)} : i \in 1..Len(recon)}
+              \cup {outs[j] : j \in 1..Len(outs)}) \ {"ok"}
+Later == 2..Len(bodies)
+Ended(i) == cfg.kind = "post" /\ bodies[i].from >= cfg.M     \* the server's own end of a finished POST stream
+Fruit(i) == EmptyBody(bodies[i]) /\ ~Ended(i)
+Budgets(all, nf) ==
+  /\ \A i \in 1..Len(bodies) : bodies[i].cls \in {"none", "bnd"}
+  /\ bodies # <<>> => (bodies[1].knd # "none" /\ bodies[1].c # None /\ bodies[1].rt = "none")
+  /\ \A i \in Later : \/ (bodies[i].knd = "none" /\ bodies[i].rt = "none")
+                       \/ (EmptyBody(bodies[i]) /\ bodies[i].knd = bodies[1].knd)
+                       \/ Ended(i)
+  /\ ~all =>
+       /\ \A i, j \in Later : (Fruit(i) /\ Fruit(j)) => bodies[i].rt = bodies[j].rt
+       /\ NFailRecons <= nf
+       /\ Cardinality(FailKinds) <= 1
+BudgetsAll == Budgets(TRUE, 0)
+Budgets1 == Budgets(FALSE, 1)
+Budgets2 == Budgets(FALSE, 2)
+
 \* reachability witnesses (each must be VIOLATED, otherwise the model is vacuous)
 NeverResumed == ~(outcome = "resp" /\ Len(recon) >= 2)
 NeverExhausted == ~(failed /\ rwp > cfg.mr)
@@ -76,5 +118,24 @@ NeverSynthetic == ~(outcome = "err" /\ ~failed)
 NeverStandaloneDone == ~(outcome = "open" /\ Len(recon) >= 1)
 \* a stuck server was given up on after progress had been made: more bodies than MaxCuts were cut
 NeverGaveUpOnStuck == ~(failed /\ cfg.tail = "stuck" /\ rwp > cfg.mr /\ prev # None /\ ncut > MaxCuts)
+\* the two budgets met in one behaviour, both used as far as WithinBudget allows, and the call completed: MaxRetries - 1
+\* fruitless bodies in a row, then a reconnection whose first MaxRetries - 1 attempts failed
+RunBefore(i, k) == i > k /\ \A j \in (i - k)..(i - 1) : NoProg(ObsOf, j)
+NeverCrossedBudgets ==
+  ~(outcome = "resp" /\ cfg.mr >= 3 /\ WithinBudget(ObsOf)
+    /\ \E i \in 2..Len(recon) : Cardinality(Failed(recon[i].outs)) = cfg.mr - 1 /\ RunBefore(i + 1, cfg.mr - 1))
+\* the client gave up on bodies that all carried a `retry:` event (and nothing new)
+NeverGaveUpOnRetryOnly ==
+  ~(failed /\ rwp > cfg.mr /\ cfg.mr >= 1 /\ prev # None
+    /\ \A i \in (Len(bodies) - cfg.mr)..Len(bodies) : EmptyBody(bodies[i]) /\ bodies[i].rt # "none")
+\* TLC evaluates invariants also on the states a CONSTRAINT cuts off: the budget family exports only what its constraint
+\* admits, and every exported behaviour names the witnesses it is (c09.py requires each to occur: no vacuity)
+BudgetWit == {nm \in {"CrossedBudgets", "GaveUpOnRetryOnly"} :
+                \/ nm = "CrossedBudgets" /\ ~NeverCrossedBudgets
+                \/ nm = "GaveUpOnRetryOnly" /\ ~NeverGaveUpOnRetryOnly}
+ExportB(ok) == IF ok /\ Done THEN PrintT(ToJson([cfg |-> cfg, exp |-> ObsOf, viol |-> Viol, wit |-> BudgetWit])) ELSE TRUE
+ExportBudgetsAll == ExportB(BudgetsAll)
+ExportBudgets1 == ExportB(Budgets1)
+ExportBudgets2 == ExportB(Budgets2)
 NeverRetriedStatus == ~(outcome = "resp" /\ \E i \in 1..Len(recon) : \E j \in 1..Len(recon[i].outs) : recon[i].outs[j] \in TransientStatus)
 =============================================================================
